@@ -116,7 +116,9 @@ analysis.POST["solution"] = solution_check
 
 
 def calendars(tier):
-    c = [{}, {"delta_time": {"$td": 900}, "start_time": {"$dt": [2024, 2, 28, 22, 30]}}, {"delta_time": {"$td": 86400}, "start_time": {"$dt": [2024, 2, 27, 0, 0]}}]
+    c = [{}, {"delta_time": {"$td": 900}, "start_time": {"$dt": [2024, 2, 28, 22, 30]}}, {"delta_time": {"$td": 86400}, "start_time": {"$dt": [2024, 2, 27, 0, 0]}},
+         # a start time that is not on a whole second
+         {"delta_time": {"$td": 60}, "start_time": {"$dt": [2024, 3, 1, 9, 45, 0, 250000]}}]
     if tier in ("thorough", "deep"):
         c += [{"delta_time": {"$td": 129600}, "start_time": {"$dt": [2023, 12, 30, 12, 0]}}, {"delta_time": {"$td": 900}},
               {"delta_time": {"$td": 604800}, "start_time": {"$dt": [2024, 1, 1, 0, 0]}}]
